@@ -5,6 +5,8 @@ open Driver ScionTime.Time64
 /-- ops:
   t64.enc <unixsec> <ns>                -> ok <S> <F>
   t64.dec <S> <F> <refsec> <refns>      -> ok <unixsec> <ns>
+  cli.fresh <now sec> <now ns> <prev sec> <prev ns> -> ok interleaved|basic <tx S> <tx F>
+      (the request the IP client builds at `now` holding the transmit timestamp of `prev`)
   t64.before|t64.after <S> <F> <S'> <F'> -> ok <bool>
 -/
 def step (_ : Unit) (toks : List String) : Unit × String :=
@@ -23,6 +25,18 @@ def step (_ : Unit) (toks : List String) : Unit × String :=
       if 0 ≤ s ∧ s < era ∧ 0 ≤ f ∧ f < era ∧ 0 ≤ rn ∧ rn < 1000000000 then
         let t := toTime { sec := s, frac := f } (mkTime rs rn)
         ((), s!"ok {unixSec t} {nanosecond t}")
+      else ((), "bad-op")
+    | _, _, _, _ => ((), "bad-op")
+  | ["cli.fresh", ns, nn, ps, pn] =>
+    match parseInt? ns, parseInt? nn, parseInt? ps, parseInt? pn with
+    | some ns, some nn, some ps, some pn =>
+      if 0 ≤ nn ∧ nn < 1000000000 ∧ 0 ≤ pn ∧ pn < 1000000000 then
+        -- measureClockOffsetIP: cTxTime0.Sub(TimeFromTime64(prev.cTxTime, cTxTime0)) <= 3 s
+        -- (both within 2^31 s of each other: time.Time.Sub does not saturate)
+        let now := mkTime ns nn
+        let stored := ofTime (mkTime ps pn)
+        if now - toTime stored now ≤ 3 * nsPerSec then ((), s!"ok interleaved {stored.sec} {stored.frac}")
+        else let x := ofTime now; ((), s!"ok basic {x.sec} {x.frac}")
       else ((), "bad-op")
     | _, _, _, _ => ((), "bad-op")
   | [op, s, f, s', f'] =>
